@@ -41,7 +41,17 @@ impl PyScanSim {
         let t = scan::resolve_threshold(sc.threshold, &table, &rows);
         let n_pos = table.f32s.len();
         let exact = matches!(sc.matrix, MatrixSpec::Direct { exact: true, .. });
-        let tags = format!("host={},tier=python{}", sc.host.as_str(), if l < m { ",L<M" } else { "" });
+        let tags = format!(
+            "host={},tier=python{}{}",
+            sc.host.as_str(),
+            if l < m { ",L<M" } else { "" },
+            match (sc.py_pre_width.is_some(), sc.py_copy) {
+                (false, false) => "",
+                (true, false) => ",seq=scored-before",
+                (false, true) => ",seq=copy",
+                (true, true) => ",seq=copy-of-scored",
+            }
+        );
         alloc::begin_run(sc.alloc);
         fn make_values<'py>(py: Python<'py>, rows: &[[f32; 5]]) -> Bound<'py, PyDict> {
             let values = PyDict::new_bound(py);
@@ -59,7 +69,7 @@ impl PyScanSim {
                 cpu::with_host(sc.host, || {
                     helper
                         .getattr("do_scan")
-                        .and_then(|f| f.call1((lm, values, sc.seq.as_str(), t as f64, sc.block_size, sc.py_poke_width.unwrap_or(0))))
+                        .and_then(|f| f.call1((lm, values, sc.seq.as_str(), t as f64, sc.block_size, sc.py_poke_width.unwrap_or(0), sc.py_pre_width.unwrap_or(0), sc.py_copy)))
                         .and_then(|v| v.extract::<String>())
                 })
             });
@@ -224,6 +234,7 @@ impl Sim for PyScanSim {
         }
         sc.nexts = 0;
         sc.then = Then::Drain;
+        sc.drain = scan::Drain::Next;
         sc.alloc = match idx % 5 {
             0 | 1 => Policy::System,
             2 => Policy::ExactPoison,
@@ -235,6 +246,17 @@ impl Sim for PyScanSim {
         }
         sc.own_buffer = false;
         sc.spare_width = 0;
+        // provenance of the sequence object: fresh, already scored with another (narrower / wider) motif,
+        // or a copy() of such an object
+        match idx % 7 {
+            1 | 4 => sc.py_pre_width = Some(r.range(2, 90)),
+            2 | 5 => {
+                sc.py_pre_width = Some(r.range(2, 90));
+                sc.py_copy = true;
+            }
+            6 => sc.py_copy = true,
+            _ => {}
+        }
         sc
     }
 
@@ -246,9 +268,24 @@ impl Sim for PyScanSim {
 
     fn shrink(sc: &Sc) -> Vec<Sc> {
         let mut v: Vec<Sc> = ScanSim::shrink(sc).into_iter().filter(|s| s.then == Then::Drain && s.nexts == 0 && s.alloc == sc.alloc).collect();
+        let (pre, copy) = (sc.py_pre_width, sc.py_copy);
+        for s in v.iter_mut() {
+            s.py_pre_width = pre;
+            s.py_copy = copy;
+        }
         if sc.py_poke_width.is_some() {
             let mut s = sc.clone();
             s.py_poke_width = None;
+            v.insert(0, s);
+        }
+        if sc.py_copy {
+            let mut s = sc.clone();
+            s.py_copy = false;
+            v.insert(0, s);
+        }
+        if sc.py_pre_width.is_some() {
+            let mut s = sc.clone();
+            s.py_pre_width = None;
             v.insert(0, s);
         }
         v
@@ -263,7 +300,7 @@ impl Sim for PyScanSim {
     }
 
     fn death_tags(sc: &Sc) -> String {
-        format!("tier=python,poke={}", sc.py_poke_width.is_some())
+        format!("tier=python,poke={},pre={},copy={}", sc.py_poke_width.is_some(), sc.py_pre_width.is_some(), sc.py_copy)
     }
 
     fn rule(_prop: &str) -> String {
